@@ -9,7 +9,8 @@
    second time (see ExtraUnicast).
 
    Input: { traces: [ {id, ref: [obs], dup: [obs], qudups: [instants]} ] } with
-   obs = [k |-> "send" | "cb" | "lc" | "exc", t, mc (send only), sig (interned content), sig2 (sends: content without id)].        *)
+   obs = [k |-> "send" | "cb" | "lc" | "exc" | "rand" (a draw from the process-wide random generator for the hold time of a
+          truncated query or the delay of an aggregated answer: it shifts every later delay of the process), t, mc (send only), sig (interned content), sig2 (sends: content without id)].        *)
 EXTENDS Integers, Sequences, FiniteSets, Json, IOUtils, TLC, TLCExt
 
 ASSUME TLCSet(42, JsonDeserialize(IOEnv.TRACE_FILE))
@@ -43,6 +44,7 @@ RefAhead == \E k \in (i + 1)..Len(Ref) : Ref[k].t = Dup[j].t /\ Same(Ref[k], Dup
 ClauseFor(d) == IF d.k = "send" THEN (IF d.mc THEN "C16_NoExtraMulticast" ELSE "C16_OnlyPermittedExtraUnicast")
                 ELSE IF d.k = "cb" THEN "C16_SameCallbacks"
                 ELSE IF d.k = "lc" THEN "C16_SameListenerCalls"
+                ELSE IF d.k = "rand" THEN "C16_SameRandomDraws"
                 ELSE "C15_NoException"
 
 Init == tid \in 1..N /\ i = 1 /\ j = 1 /\ err = ""
